@@ -8,11 +8,32 @@ Open Scope Z_scope.
 
 (* ---- the converter table of the router, sent with every history *)
 Definition d_optZ (v : val) : option Z := dopt dZ v.
+Definition d_rat (v : val) : option (Z * Z) :=
+  match v with L [n; d] => Some (dZ n, dZ d) | _ => None end.
+(* float() oracle entry: [s; [0; num; den; repr]] | [s; [1; neg; repr]] | [s; [2; repr]] *)
+Definition d_fparse (v : val) : fparse :=
+  match v with
+  | L [I 0; n; d; r] => FNum (dZ n) (dZ d) (dstr r)
+  | L [I 1; neg; r] => FInf (dbool neg) (dstr r)
+  | L [I _; r] => FNan (dstr r)
+  | _ => FNan []
+  end.
+Definition d_value0 (v : val) : value :=
+  match v with
+  | L [I 1; I z] => VInt z
+  | L [I 2; s] => VOther (dstr s)
+  | L [I _; s] => VStr (dstr s)
+  | _ => VStr []
+  end.
 Definition d_cres (v : val) : cres :=
   match v with
   | L (I 1 :: _) => CFail
   | L [I 2; nd; mn; mx] => COk (CInt (d_optZ nd) (d_optZ mn) (d_optZ mx))
   | L (I 3 :: _) => COk CPath
+  | L [I 4; mn; mx; fin; tbl] =>
+    COk (CFloat (d_rat mn) (d_rat mx) (dbool fin)
+                (dlist (fun e => (dstr (nth_val 0 e), d_fparse (nth_val 1 e))) tbl))
+  | L [I 5; tbl] => COk (COpaque (dlist (fun e => (dstr (nth_val 0 e), d_value0 (nth_val 1 e))) tbl))
   | _ => CUnknown
   end.
 Definition opt_str_eqb (a b : option str) : bool :=
@@ -38,7 +59,7 @@ Definition v_piece (p : piece) : val :=
   match p with PC c => L [I 0; vN c] | PF f => v_field f end.
 Definition v_groups (g : groups) : val := vlist (vpair vstr vstr) g.
 Definition v_value (x : value) : val :=
-  match x with VStr s => L [I 0; vstr s] | VInt z => L [I 1; I z] end.
+  match x with VStr s => L [I 0; vstr s] | VInt z => L [I 1; I z] | VOther s => L [I 2; vstr s] end.
 Definition v_params (p : params) : val := vlist (vpair vstr v_value) p.
 Definition v_result (r : option (N * params)) : val :=
   match r with None => L [] | Some (rid, p) => L [vN rid; v_params p] end.
@@ -85,6 +106,7 @@ Fixpoint v_node (n : node) : val :=
 Definition d_value (v : val) : value :=
   match v with
   | L [I 1; I z] => VInt z
+  | L [I 2; s] => VOther (dstr s)
   | L [I _; s] => VStr (dstr s)
   | _ => VStr []
   end.
@@ -126,13 +148,16 @@ Fixpoint do_ops (r : router) (ops : list val) : list val :=
   end.
 End Hist.
 
-(* ops: 0 parse_seg; 1 match_pieces; 2 int_convert; 3 history *)
+(* ops: 0 parse_seg; 1 match_pieces; 2 int_convert; 3 history; 4 float_convert *)
 Definition run (v : val) : val :=
   match v with
   | L [I 0; s] => L [I 0; vlist v_piece (parse_seg (dstr s))]
   | L [I 1; rw; s] => L [I 1; vopt v_groups (match_pieces (parse_seg (dstr rw)) (dstr s))]
   | L [I 2; nd; mn; mx; s] =>
     L [I 2; vopt I (int_convert (d_optZ nd) (d_optZ mn) (d_optZ mx) (dstr s))]
+  | L [I 4; mn; mx; fin; tbl; L ss] =>
+    let t := dlist (fun e => (dstr (nth_val 0 e), d_fparse (nth_val 1 e))) tbl in
+    L [I 4; L (map (fun s => vopt v_value (float_convert (d_rat mn) (d_rat mx) (dbool fin) t (dstr s))) ss)]
   | L [I 3; ct; ml; L ops] =>
     L (do_ops (tab_cinst (d_ctab ct)) (tab_multi (dlist dstr ml)) router0 ops)
   | _ => L [I (-1)]
